@@ -5,7 +5,7 @@ patch="$1"; shift
 cd /repo || exit 2
 if [ -n "$(git status --porcelain)" ]; then echo "/repo not clean"; exit 2; fi
 if ! git apply "$patch" 2>/tmp/try_seed.err; then
-  if ! git apply --3way "$patch" 2>>/tmp/try_seed.err; then echo "patch does not apply: $(cat /tmp/try_seed.err)"; git checkout -- . ; git reset -q; exit 2; fi
+  if ! git apply --3way "$patch" 2>>/tmp/try_seed.err; then echo "patch does not apply: $(head -2 /tmp/try_seed.err)"; git reset -q --hard HEAD; exit 2; fi
   git reset -q
 fi
 for p in "$@"; do
